@@ -14,13 +14,12 @@ Fixpoint ossh_escape (v : text) : text :=
   | c :: r => if c =? 34 then 92 :: c :: ossh_escape r else c :: ossh_escape r
   end.
 
-(* values in which every backslash is followed by something other than a double quote (in
-   particular the value does not end in a backslash) *)
-Fixpoint safe (v : text) : bool :=
+(* the values OpenSSH's quoting can represent: all but those ending in a backslash (a final
+   backslash would swallow the closing quote, in OpenSSH's reader as well) *)
+Fixpoint representable (v : text) : bool :=
   match v with
   | [] => true
-  | c :: r => if c =? 92 then match r with [] => false | d :: _ => negb (d =? 34) && safe r end
-              else safe r
+  | c :: r => match r with [] => negb (c =? 92) | _ :: _ => representable r end
   end.
 
 Definition print_opt (esc : text -> text) (nv : text * text) : text :=
@@ -41,65 +40,72 @@ Lemma tok_plain n : Forall plain n -> forall s cur acc last,
 Proof.
   unfold tok. induction 1 as [|c n (H92 & H34 & H32 & H9 & H44) _ IH]; intros s cur acc last.
   - exists last. reflexivity.
-  - cbn [app tok_gen]. apply Z.eqb_neq in H92, H34, H32, H9, H44.
+  - cbn [app tok_gen andb]. apply Z.eqb_neq in H92, H34, H32, H9, H44.
     rewrite H92, H34, H32, H9, H44. cbn [orb].
     destruct (IH s (c :: cur) acc [c]) as [l' ->]. exists l'.
     cbn [rev]. rewrite <- app_assoc. reflexivity.
 Qed.
 
-Lemma safe_tail d r : safe (d :: r) = true -> safe r = true.
-Proof.
-  cbn [safe]. destruct (d =? 92); [|auto].
-  destruct r as [|e r']; [discriminate|]. intros H. apply andb_true_iff in H as [_ H]. exact H.
-Qed.
+Lemma representable_tail c d r : representable (c :: d :: r) = representable (d :: r).
+Proof. reflexivity. Qed.
 
-Lemma tok_quoted_safe n : forall v, (length v <= n)%nat -> safe v = true -> forall s cur acc last,
-  exists last', tok (ossh_escape v ++ 34 :: s) true false cur acc last = tok s false false (rev v ++ cur) acc last'.
+(* inside a quoted value: A = no escape pending, B = a backslash of the value is pending *)
+Lemma tok_quoted_repr v : representable v = true -> forall s acc,
+  (forall cur last, exists last',
+     tok_gen TLook (ossh_escape v ++ 34 :: s) true false cur acc last = tok_gen TLook s false false (rev v ++ cur) acc last') /\
+  (v <> [] -> forall cur last, exists last',
+     tok_gen TLook (ossh_escape v ++ 34 :: s) true true cur acc last = tok_gen TLook s false false (rev v ++ 92 :: cur) acc last').
 Proof.
-  unfold tok. induction n as [|n IH]; intros v Hl Hs s cur acc last.
-  - destruct v; [|simpl in Hl; lia]. exists [34]. reflexivity.
-  - destruct v as [|c r]; [exists [34]; reflexivity|]. simpl in Hl.
+  induction v as [|c r IH]; intros Hr s acc.
+  - split; [|congruence]. intros cur last. exists [34]. reflexivity.
+  - assert (Hr' : r <> [] -> representable r = true) by (destruct r; [congruence|intros _; exact Hr]).
+    assert (HA : forall cur last, exists last',
+               tok_gen TLook (ossh_escape r ++ 34 :: s) true false cur acc last = tok_gen TLook s false false (rev r ++ cur) acc last').
+    { destruct r as [|d r']; [intros cur last; exists [34]; reflexivity|].
+      apply (IH (Hr' ltac:(discriminate)) s acc). }
     destruct (Z.eqb_spec c 34) as [->|H34].
-    + (* an escaped double quote *)
-      change (ossh_escape (34 :: r)) with (92 :: 34 :: ossh_escape r). cbn [app tok_gen].
-      change (92 =? 92) with true. change (34 =? 34) with true. cbn [negb andb].
-      destruct (IH r ltac:(lia) (safe_tail _ _ Hs) s (34 :: cur) acc [34]) as [l' ->]. exists l'.
-      cbn [rev]. rewrite <- app_assoc. reflexivity.
+    + (* a double quote of the value, printed backslash-quote *)
+      change (ossh_escape (34 :: r)) with (92 :: 34 :: ossh_escape r). split.
+      * intros cur last. cbn [app tok_gen andb]. change (92 =? 92) with true. change (34 =? 34) with true. cbn [andb].
+        destruct (HA (34 :: cur) [34]) as [l' ->]. exists l'. cbn [rev]. rewrite <- app_assoc. reflexivity.
+      * intros _ cur last. cbn [app tok_gen andb]. change (92 =? 34) with false. cbn [andb].
+        change (92 =? 92) with true. change (34 =? 34) with true. cbn [andb].
+        destruct (HA (34 :: 92 :: cur) [34]) as [l' ->]. exists l'. cbn [rev]. rewrite <- app_assoc. reflexivity.
     + destruct (Z.eqb_spec c 92) as [->|H92].
-      * (* a backslash: followed by d <> 34, both are kept *)
-        cbn [safe] in Hs. change (92 =? 92) with true in Hs. cbv iota in Hs.
-        destruct r as [|d r']; [discriminate|].
-        apply andb_true_iff in Hs as [Hd Hs]. apply negb_true_iff in Hd.
-        cbn [ossh_escape]. change (92 =? 34) with false. cbv iota. rewrite Hd.
-        cbn [app tok_gen]. change (92 =? 92) with true. rewrite Hd. cbn [negb andb].
-        simpl in Hl.
-        destruct (IH r' ltac:(lia) (safe_tail _ _ Hs) s (d :: 92 :: cur) acc [d]) as [l' ->]. exists l'.
-        cbn [rev]. rewrite <- !app_assoc. reflexivity.
-      * cbn [ossh_escape]. apply Z.eqb_neq in H34, H92. rewrite H34.
-        cbn [app tok_gen]. rewrite H92, H34.
-        assert (Hs' : safe r = true) by (cbn [safe] in Hs; rewrite H92 in Hs; exact Hs).
-        destruct (IH r ltac:(lia) Hs' s (c :: cur) acc [c]) as [l' ->]. exists l'.
-        cbn [rev]. rewrite <- app_assoc. reflexivity.
+      * (* a backslash of the value: r is not empty *)
+        assert (Hne : r <> []) by (destruct r; [discriminate Hr|discriminate]).
+        destruct (IH (Hr' Hne) s acc) as [_ HB]. specialize (HB Hne).
+        cbn [ossh_escape]. change (92 =? 34) with false. cbv iota. split.
+        -- intros cur last. cbn [app tok_gen andb]. change (92 =? 92) with true.
+           destruct (HB cur [92]) as [l' ->]. exists l'. cbn [rev]. rewrite <- app_assoc. reflexivity.
+        -- intros _ cur last. cbn [app tok_gen andb]. change (92 =? 34) with false. cbn [andb].
+           change (92 =? 92) with true.
+           destruct (HB (92 :: cur) [92]) as [l' ->]. exists l'. cbn [rev]. rewrite <- app_assoc. reflexivity.
+      * cbn [ossh_escape]. apply Z.eqb_neq in H34, H92. rewrite H34. split.
+        -- intros cur last. cbn [app tok_gen andb]. rewrite H92, H34.
+           destruct (HA (c :: cur) [c]) as [l' ->]. exists l'. cbn [rev]. rewrite <- app_assoc. reflexivity.
+        -- intros _ cur last. cbn [app tok_gen andb]. rewrite H34. cbn [andb]. rewrite H92, H34.
+           destruct (HA (c :: 92 :: cur) [c]) as [l' ->]. exists l'. cbn [rev]. rewrite <- app_assoc. reflexivity.
 Qed.
 
-Lemma tok_one_opt n v : Forall plain n -> safe v = true -> forall s cur acc last,
+Lemma tok_one_opt n v : Forall plain n -> representable v = true -> forall s cur acc last,
   exists last', tok (print_opt ossh_escape (n, v) ++ s) false false cur acc last =
                 tok s false false (rev (raw_opt (n, v)) ++ cur) acc last'.
 Proof.
   intros Hn Hv s cur acc last. unfold print_opt, raw_opt. cbn [fst snd].
   rewrite <- app_assoc.
   destruct (tok_plain n Hn ((61 :: 34 :: ossh_escape v ++ [34]) ++ s) cur acc last) as [l1 ->].
-  unfold tok. cbn [app tok_gen]. change (61 =? 92) with false. change (61 =? 34) with false.
+  unfold tok. cbn [app tok_gen andb]. change (61 =? 92) with false. change (61 =? 34) with false.
   change ((61 =? 32) || (61 =? 9)) with false. change (61 =? 44) with false.
   change (34 =? 92) with false. change (34 =? 34) with true. cbn [negb].
   rewrite <- app_assoc. cbn [app].
-  destruct (tok_quoted_safe (length v) v (le_n _) Hv s (61 :: rev n ++ cur) acc [34]) as [l2 Hq].
-  unfold tok in Hq. rewrite Hq. exists l2.
+  destruct (tok_quoted_repr v Hv s acc) as [HA _].
+  destruct (HA (61 :: rev n ++ cur) [34]) as [l2 ->]. exists l2.
   rewrite rev_app_distr. cbn [rev]. rewrite <- !app_assoc. reflexivity.
 Qed.
 
 Lemma tok_opts rest : forall opts acc last,
-  opts <> [] -> Forall (fun nv => Forall plain (fst nv)) opts -> Forall (fun nv => safe (snd nv) = true) opts ->
+  opts <> [] -> Forall (fun nv => Forall plain (fst nv)) opts -> Forall (fun nv => representable (snd nv) = true) opts ->
   exists acc' cur',
     tok (print_opts ossh_escape opts ++ 32 :: rest) false false [] acc last = (acc', cur', false, false, 32 :: rest) /\
     rev (rev cur' :: acc') = rev acc ++ map raw_opt opts.
@@ -110,13 +116,13 @@ Proof.
   destruct r as [|o2 r].
   - cbn [print_opts].
     destruct (tok_one_opt n v Hn Hv (32 :: rest) [] acc last) as [l' ->].
-    unfold tok. cbn [tok_gen]. change (32 =? 92) with false. change (32 =? 34) with false. change (32 =? 32) with true. cbn [orb].
+    unfold tok. cbn [tok_gen andb]. change (32 =? 92) with false. change (32 =? 34) with false. change (32 =? 32) with true. cbn [orb].
     eexists _, _. split; [reflexivity|].
     rewrite app_nil_r, rev_involutive. cbn [rev map]. reflexivity.
   - change (print_opts ossh_escape ((n, v) :: o2 :: r)) with (print_opt ossh_escape (n, v) ++ 44 :: print_opts ossh_escape (o2 :: r)).
     rewrite <- app_assoc.
     destruct (tok_one_opt n v Hn Hv ((44 :: print_opts ossh_escape (o2 :: r)) ++ 32 :: rest) [] acc last) as [l' ->].
-    unfold tok. cbn [app tok_gen]. change (44 =? 92) with false. change (44 =? 34) with false.
+    unfold tok. cbn [app tok_gen andb]. change (44 =? 92) with false. change (44 =? 34) with false.
     change ((44 =? 32) || (44 =? 9)) with false. change (44 =? 44) with true.
     rewrite app_nil_r, rev_involutive.
     destruct (IH (raw_opt (n, v) :: acc) [44]) as (acc' & cur' & Htok & Hrev); [discriminate|exact Hr|exact Hsr|].
@@ -125,10 +131,10 @@ Qed.
 
 (* Round trip with the quoting OpenSSH documents (the value in double quotes, embedded double quotes
    written backslash-quote, nothing else escaped): a non-empty list of options, followed by a blank and
-   the rest of the line, is tokenized back to exactly those name=value strings - backslashes in the
-   values included - provided no backslash of a value stands directly in front of a double quote. *)
+   the rest of the line, is tokenized back to exactly those name=value strings, for every value
+   that this quoting can represent at all (every value not ending in a backslash). *)
 Theorem tokenize_ossh opts rest :
-  opts <> [] -> Forall (fun nv => Forall plain (fst nv)) opts -> Forall (fun nv => safe (snd nv) = true) opts ->
+  opts <> [] -> Forall (fun nv => Forall plain (fst nv)) opts -> Forall (fun nv => representable (snd nv) = true) opts ->
   tokenize (print_opts ossh_escape opts ++ 32 :: rest) = Some (map raw_opt opts, strip (32 :: rest)).
 Proof.
   intros Hne Hp Hs. unfold tokenize, tokenize_gen.
@@ -136,21 +142,27 @@ Proof.
   unfold tok in Htok. rewrite Htok. cbn [orb]. rewrite Hrev. reflexivity.
 Qed.
 
-(* The remaining gap: a value with a backslash directly in front of a double quote (a, backslash,
-   quote, b - OpenSSH reads its quoted form back to exactly that value) is not tokenized back. *)
-Theorem tokenize_ossh_backslash_quote_lost :
-  exists n v rest, Forall plain n /\
-    tokenize (print_opts ossh_escape [(n, v)] ++ 32 :: rest) <> Some ([raw_opt (n, v)], strip (32 :: rest)).
+(* a value ending in a backslash is outside the format: its quoted form is refused *)
+Theorem tokenize_ossh_trailing_backslash_refused :
+  tokenize (print_opts ossh_escape [([120], [97; 92])] ++ [32; 107]) = None.
+Proof. vm_compute. reflexivity. Qed.
+
+(* Between 2e10b73 and fd4aee3 ([tokenize_mid]) a representable value with a backslash directly in
+   front of a double quote (a, backslash, quote, b) was not tokenized back. *)
+Theorem tokenize_mid_backslash_quote_lost :
+  exists n v rest, Forall plain n /\ representable v = true /\
+    tokenize_mid (print_opts ossh_escape [(n, v)] ++ 32 :: rest) <> Some ([raw_opt (n, v)], strip (32 :: rest)).
 Proof.
-  exists [120], [97; 92; 34; 98], [107]. split.
+  exists [120], [97; 92; 34; 98], [107]. split; [|split].
   - constructor; [|constructor]. unfold plain. lia.
+  - reflexivity.
   - vm_compute. discriminate.
 Qed.
 
 (* Before repair 2e10b73 ([tokenize_old]) every backslash was dropped: the option x with the quoted
    value a-backslash-b was tokenized to x=ab. *)
 Theorem tokenize_old_backslash_lost :
-  exists n v rest, Forall plain n /\ safe v = true /\
+  exists n v rest, Forall plain n /\ representable v = true /\
     tokenize_old (print_opts ossh_escape [(n, v)] ++ 32 :: rest) <> Some ([raw_opt (n, v)], strip (32 :: rest)).
 Proof.
   exists [120], [97; 92; 98], [107]. split; [|split].
